@@ -127,11 +127,11 @@ func siblingScenario(c *core.Ctx, idx int, prop string) {
 	kidA := &schema.StoreDef{Type: "nodes", Parent: "nodes", ChildPath: []string{"ka"},
 		Fields: []schema.Field{{Name: "acode", Kind: schema.KStr}, {Name: "aroles", Kind: schema.KList}, {Name: "owner", Kind: schema.KStr, FK: "hubs"}},
 		Unique: []schema.UniqueDef{{Field: "acode", Nullable: true}}, SetIdx: []string{"aroles"},
-		FKs:    []schema.FKDef{{Field: "owner", Target: "hubs", Kind: schema.FkConstraint, Nullable: true, Cascade: int(boltz.CascadeNone)}}}
+		FKs: []schema.FKDef{{Field: "owner", Target: "hubs", Kind: schema.FkConstraint, Nullable: true, Cascade: int(boltz.CascadeNone)}}}
 	kidB := &schema.StoreDef{Type: "nodes", Parent: "nodes", ChildPath: []string{"kb"}, Extended: idx%2 == 1,
 		Fields: []schema.Field{{Name: "bcode", Kind: schema.KStr}, {Name: "broles", Kind: schema.KList}, {Name: "owner", Kind: schema.KStr, FK: "hubs"}},
 		Unique: []schema.UniqueDef{{Field: "bcode", Nullable: true}}, SetIdx: []string{"broles"},
-		FKs:    []schema.FKDef{{Field: "owner", Target: "hubs", Kind: schema.FkConstraint, Nullable: true, Cascade: int(boltz.CascadeNone)}}}
+		FKs: []schema.FKDef{{Field: "owner", Target: "hubs", Kind: schema.FkConstraint, Nullable: true, Cascade: int(boltz.CascadeNone)}}}
 	sc := schema.Build([]*schema.StoreDef{hubs, nodes, kidA, kidB})
 	path := c.TempFile("c06s")
 	db, err := sc.OpenDb(path)
